@@ -324,7 +324,8 @@ func (s *clientSocket) sendConnectPacket(authData any) {
 				m[k] = v
 			}
 		}
-		v = m
+		// The parser only accepts pointers (and structs).
+		v = &m
 	} else if authData != nil {
 		v = &authData
 	}
